@@ -1124,17 +1124,18 @@ Proof.
     pose proof (Hge _ Hin) as Hc0. set (c := nth k (csR ivs) 0) in *.
     assert (Hlt : c < IZR (Z.of_nat steps)).
     { pose proof (Zfloor_ub c) as Hub. rewrite Hf in Hub.
-      assert (IZR (Z.of_nat t + 1) <= IZR (Z.of_nat steps)) by (apply IZR_le; lia). lra. }
+      assert (Hle : IZR (Z.of_nat t + 1) <= IZR (Z.of_nat steps)) by (apply IZR_le; lia).
+      rewrite plus_IZR in Hle. simpl in Hle. lra. }
     destruct (clamp_index_lt steps c ltac:(lra) Hlt) as [E _].
-    apply in_map_iff. exists c. split; auto. rewrite E. auto.
+    apply in_map_iff. exists c. split; auto. etransitivity; [exact E|exact Hf].
 Qed.
 
 (* online: from a finite countdown value x the element first fires at step max(0, floor(x) - 1); hence after
    a spike with fresh interval I the next spike follows exactly max(1, floor I) steps later *)
 Lemma Zfloor_minus_1 x : Zfloor (x - 1) = (Zfloor x - 1)%Z.
 Proof.
-  apply Zfloor_imp. rewrite minus_IZR. replace (Zfloor x - 1 + 1)%Z with (Zfloor x) by lia.
-  pose proof (Zfloor_lb x). pose proof (Zfloor_ub x). simpl. rewrite plus_IZR in *. simpl in *. lra.
+  apply Zfloor_imp. pose proof (Zfloor_lb x). pose proof (Zfloor_ub x).
+  rewrite plus_IZR, minus_IZR. simpl. lra.
 Qed.
 
 Theorem exp_trace_wait r s x bs : exp_trace r s (Some x) bs ->
@@ -1155,4 +1156,73 @@ Proof.
   - destruct t as [|t]; [|specialize (Hfirst 0%nat ltac:(lia)); discriminate].
     apply exp_fire_inv in Hf as [y [Ey Hy]]. inversion Ey; subst y.
     assert (Zfloor x < 2)%Z by (apply lt_IZR; pose proof (Zfloor_lb x); simpl; lra). lia.
+Qed.
+
+(* ------------------------------------------------------------------ the domain hypothesis is needed, and the constructor
+   does not enforce it: HomogeneousPoissonEncoder(steps=4, step_time=1, frequency=2000, refrac=2, compensate=True)
+   is accepted (only the setters test frequency * refrac < 1000); the compensated scale is negative and two spikes
+   land on adjacent steps although refrac = 2 steps. *)
+Definition od_cfg : config RN := mkConfig RN 4%Z 1 2000 (Some 2) true.
+
+Theorem hpe_min_gap_needs_domain_refuted :
+  exists out, valid_step RN od_cfg && valid_refrac RN od_cfg = true /\
+    hpe_offline RN od_cfg [1] [[1]; [1]] = Ok out /\
+    nth 0 (nth 0 out []) false = true /\ nth 0 (nth 1 out []) false = true /\
+    Zfloor (enc_refrac RN od_cfg / c_dt od_cfg) = 2%Z /\ ~ hpe_domain od_cfg [1].
+Proof.
+  assert (V : valid_step RN od_cfg && valid_refrac RN od_cfg = true).
+  { unfold valid_step, valid_refrac, od_cfg; simpl.
+    destruct (Rleb'_spec 0 2000); [|lra]. destruct (Rltb'_spec 0 1); [|lra]. destruct (Rleb'_spec 0 2); [|lra]. auto. }
+  assert (Es : scale_of RN (2000 * 1) 1 2 true = Some (- (3 / 2))).
+  { unfold scale_of, period_steps; rn_simpl. destruct (Reqb'_spec (2000 * 1) 0); [lra|]. simpl. f_equal. field. }
+  assert (En : Z.to_nat (nbins RN 4 2) = 2%nat).
+  { unfold nbins; rn_simpl. rewrite tmax_Rmax, Rmax_left by lra.
+    replace (IZR (Z.of_nat 4) / 2) with (IZR 2) by (simpl; lra). rewrite Zfloor_IZR. reflexivity. }
+  assert (C0 : clamp_index RN 4 (Some (1 * - (3 / 2) + 2)) = 0%Z).
+  { destruct (clamp_index_lt 4 (1 * - (3 / 2) + 2)) as [-> _]; [lra|simpl; lra|].
+    apply Zfloor_imp. simpl. lra. }
+  assert (C1 : clamp_index RN 4 (Some (1 * - (3 / 2) + 2 + (1 * - (3 / 2) + 2))) = 1%Z).
+  { destruct (clamp_index_lt 4 (1 * - (3 / 2) + 2 + (1 * - (3 / 2) + 2))) as [-> _]; [lra|simpl; lra|].
+    apply Zfloor_imp. simpl. lra. }
+  assert (Eidx : exp_indices RN 4 2 (Some (- (3 / 2))) [1; 1] = [0; 1]%Z).
+  { rewrite exp_indices_some. unfold used. rewrite En. cbn [map firstn csR csR_from].
+    f_equal; [exact C0|f_equal; exact C1]. }
+  assert (Eel : exp_offline_elem RN 4 1 (Some 2) true (2000 * 1) [1; 1] = Some [true; true; false; false]).
+  { unfold exp_offline_elem. replace (refrac_steps RN (Some 2) 1) with 2 by (rewrite refrac_steps_eq; simpl; field).
+    rewrite Es, Eidx. reflexivity. }
+  exists [[true]; [true]; [false]; [false]]. split; auto. split; [|split; [|split; [|split]]]; auto.
+  - unfold hpe_offline. rewrite V. unfold od_cfg, enc_refrac, exp_offline; simpl.
+    unfold column; simpl. change (Pos.to_nat 4) with 4%nat. change (mul RN 2000 1) with (2000 * 1).
+    rewrite Eel. reflexivity.
+  - unfold od_cfg, enc_refrac; simpl. replace (2 / 1) with (IZR 2) by (simpl; lra). apply Zfloor_IZR.
+  - intros [_ Hd]. specialize (Hd eq_refl). inversion Hd as [|? ? Hx _]; subst.
+    unfold od_cfg, enc_refrac in Hx; simpl in Hx. lra.
+Qed.
+
+(* ------------------------------------------------------------------ one Bernoulli row (shared by the homogeneous offline /
+   online encoders and by inhomogeneous_poisson_bernoulli_approx): silence at zero rate for every uniform draw *)
+Theorem bern_row_zero_silent dt inps us j :
+  nth j inps 0 = 0 -> Forall (fun u => 0 <= u) us -> nth j (bern_row RN dt inps us) false = false.
+Proof.
+  intros Hz Hu.
+  destruct (Nat.lt_ge_cases j (length inps)) as [Hj|Hj]; [destruct (Nat.lt_ge_cases j (length us)) as [Hju|Hju]|].
+  - rewrite bern_row_nth by auto. rewrite Hz, bern_prob_zero.
+    destruct (Rltb'_spec (nth j us 0) 0) as [Hlt|]; auto. exfalso.
+    rewrite Forall_forall in Hu. specialize (Hu _ (nth_In _ _ Hju)). lra.
+  - apply nth_overflow. unfold bern_row. rewrite map_length, combine_length. lia.
+  - apply nth_overflow. unfold bern_row. rewrite map_length, combine_length. lia.
+Qed.
+
+Theorem bern_inhomogeneous_shape dt inps us :
+  length us = length inps ->
+  length (bern_inhomogeneous RN dt inps us) = length inps /\
+  forall t j, nth j (nth t inps []) 0 = 0 -> Forall (Forall (fun u => 0 <= u)) us ->
+    nth j (nth t (bern_inhomogeneous RN dt inps us) []) false = false.
+Proof.
+  intros Hl. unfold bern_inhomogeneous. split; [rewrite map_length, combine_length; lia|].
+  intros t j Hz Hu. destruct (Nat.lt_ge_cases t (length inps)) as [Ht|Ht].
+  - rewrite nth_map_lt with (d := ([], [])) by (rewrite combine_length; lia).
+    rewrite combine_nth_lt by lia. simpl. apply bern_row_zero_silent; auto.
+    rewrite Forall_forall in Hu. apply Hu. apply nth_In. lia.
+  - rewrite nth_overflow by (rewrite map_length, combine_length; lia). destruct j; auto.
 Qed.
